@@ -159,6 +159,10 @@ def run_closed_form(spec):
     tp.temperatures = Ts
     tp.run(lang=spec["lang"])
     _, F, S, C = tp.thermal_properties
+    # the mesh handed in is shared with other consumers (DOS, later thermal-property runs): it must not be modified
+    if not (np.array_equal(mesh.frequencies, f) and np.array_equal(mesh.weights, w)):
+        return Out(ok=False, msg="ThermalProperties modified the frequencies/weights of the mesh object it was given "
+                                 "(pretend_real=%s, band_indices=%r)" % (spec["pretend_real"], bi))
     # reference on the frequencies the documentation says are used
     fsel = f if bi is None else f[:, np.hstack(bi).astype(int)]
     if spec["pretend_real"]:
